@@ -2181,8 +2181,9 @@ impl Kanata {
             && self.caps_word.is_none()
             && self.vkeys_pending_release.is_empty()
             // A key that was output on the last tick but is no longer held by the layout (e.g. a
-            // macro cancelled between ticks) still needs one more tick to be released at the OS.
-            && (self.prev_keys.is_empty() || self.layout.b().keycodes().next().is_some())
+            // macro cancelled between ticks, caps-word toggled off) still needs one more tick to
+            // be released at the OS, also while other keys are still held.
+            && self.prev_keys.len() == self.layout.b().keycodes().count()
             && !self.layout.b().states.iter().any(|s| {
                 matches!(s, State::SeqCustomPending(_) | State::SeqCustomActive(_))
                     || (pressed_keys_means_not_idle && matches!(s, State::NormalKey { .. }))
